@@ -103,6 +103,37 @@ theorem parse_repeated_either (S : Schema) (fields : List FieldDesc) (hd : IdsDi
     | nil => exact absurd rfl hne
     | cons a as => simp [optAcc]
 
+/-- a packed record arriving when part of the array has been parsed already (from earlier packed or unpacked records) is
+    APPENDED: packed payloads may be split over several records and mixed with unpacked elements -/
+theorem parse_packed_appends (S : Schema) (fields : List FieldDesc) (hd : IdsDistinct fields) (fuel : Nat)
+    (k : Nat) (f : FieldDesc) (hk : k < fields.length) (hf : fields[k] = f) (hl : f.label = .repeated)
+    (hp : f.type.packable = true) (l : List Val) (hne : l ≠ []) (hall : ∀ v ∈ l, CanonElem1 S f v)
+    (ty : Nat) (sl : List Slot) (u : List Unk) (acc : List Val) (hs : getSlot sl k = .rep acc.length (optAcc acc)) :
+    parseMember S fuel fields
+        (toScanned fields (⟨f.id, 2, varint ((elemsBytes S f l.length l).flatten).length ++ (elemsBytes S f l.length l).flatten⟩,
+          varintLen ((elemsBytes S f l.length l).flatten).length)) (.mk ty sl u) =
+      some (.mk ty (setSlot sl k (.rep (acc ++ l).length (optAcc (acc ++ l)))) u) := by
+  have hfd : fields.getD k default = f := by rw [getD_eq_getElem?_getD, getElem?_eq_getElem hk]; simpa using hf
+  have hsc : ∀ v ∈ l, okScalar f.type v := fun v hv => canon_scalar_of_packable S f v (hall v hv) hp
+  have hpay : (elemsBytes S f l.length l).flatten = (l.map (scalarBytes f.type)).flatten := by
+    rw [elemsBytes_eq, elemsVals_full]
+    congr 1
+    apply map_congr_left
+    intro v hv; exact elemBytes_scalar S f v (hsc v hv)
+  have hpp := parsePacked_elems f.type hp l hsc
+  simp only [toScanned]
+  rw [findIdx_of_id hd hk (by rw [hf])]
+  unfold parseMember
+  simp only [hfd, hl, hs, packedPath_wt2 f hp, if_true]
+  rw [show drop (varintLen ((elemsBytes S f l.length l).flatten).length)
+      (varint ((elemsBytes S f l.length l).flatten).length ++ (elemsBytes S f l.length l).flatten) =
+        (elemsBytes S f l.length l).flatten by rw [← varint_length]; exact drop_left]
+  rw [hpay, hpp]
+  simp only [Option.map_some, optAcc_getD, length_append]
+  cases l with
+  | nil => exact absurd rfl hne
+  | cons a as => simp [optAcc]
+
 /-! ### padded varints -/
 
 /-- `n` in base-128 groups followed by `p ≥ 1` redundant zero groups: every byte but the last carries the continuation bit -/
